@@ -224,6 +224,9 @@ func (w *opsWorld) apply(op string) (r opResult) {
 	case "sauth":
 		// sauth:<name>:<banned 0|1>:<httpPort>:<signer>
 		as := server.AuthorizedServer{PublicKey: key("server-" + parts[1]).Pub, Banned: parts[2] == "1", Location: "127.0.0.1"}
+		if len(parts) > 5 {
+			as.Location = locationOfLen(parts[5])
+		}
 		port, _ := strconv.ParseUint(parts[3], 10, 16)
 		as.HttpPort, as.TcpPort, as.UdpPort = uint16(port), uint16(port)+1, uint16(port)+2
 		as.GCAAuthorization = glow.Sign(refServerSigningBytes(as), w.signerPriv(parts[4]))
@@ -243,6 +246,20 @@ func (w *opsWorld) apply(op string) (r opResult) {
 		ns := server.AuthorizedServer{PublicKey: key("server-N1").Pub, Location: "127.0.0.1", HttpPort: 1, TcpPort: 2, UdpPort: 3}
 		ns.GCAAuthorization = glow.Sign(refServerSigningBytes(ns), w.signerPriv(parts[4]))
 		em.NewServers = []server.AuthorizedServer{ns}
+		em.Signature = glow.Sign(refMigrationSigningBytes(em), w.signerPriv(parts[3]))
+		body, _ := json.Marshal(em)
+		var code int
+		panicked = safely(func() { code, _ = w.httpDo("POST", "/api/v1/equipment-migrate", body) })
+		r.Obs = fmt.Sprint(code)
+		if w.M.migrate(em) {
+			r.Want = "200"
+		} else {
+			r.Want = "500"
+		}
+		r.Sig = "migration-status"
+	case "migr0":
+		// migr0:<equipment key>:<new gca>:<outer signer> - a migration order without new servers
+		em := server.EquipmentMigration{Equipment: key(parts[1]).Pub, NewGCA: key(parts[2]).Pub, NewShortID: 77}
 		em.Signature = glow.Sign(refMigrationSigningBytes(em), w.signerPriv(parts[3]))
 		body, _ := json.Marshal(em)
 		var code int
@@ -406,6 +423,22 @@ func (w *opsWorld) compareState() (string, string) {
 	if got != want {
 		return "state/differs", firstDiff(got, want)
 	}
+	if len(snap.Servers) != len(w.M.Servers) {
+		return "state/server-list", fmt.Sprintf("server list has %d entries, model %d", len(snap.Servers), len(w.M.Servers))
+	}
+	for i := range snap.Servers {
+		if !bytes.Equal(refServerBytes(snap.Servers[i]), refServerBytes(w.M.Servers[i])) {
+			return "state/server-list", fmt.Sprintf("server list entry %d differs from the model (banned %v/%v, http port %d/%d)", i, snap.Servers[i].Banned, w.M.Servers[i].Banned, snap.Servers[i].HttpPort, w.M.Servers[i].HttpPort)
+		}
+	}
+	if len(snap.Migrations) != len(w.M.Migrations) {
+		return "state/migrations", fmt.Sprintf("%d migration orders stored, model %d", len(snap.Migrations), len(w.M.Migrations))
+	}
+	for k, mg := range w.M.Migrations {
+		if got, ok := snap.Migrations[k]; !ok || !bytes.Equal(refMigrationBody(got), refMigrationBody(mg)) || got.Signature != mg.Signature {
+			return "state/migrations", fmt.Sprintf("migration order for %x differs from the model", k[:4])
+		}
+	}
 	if snap.GCAAvailable != w.M.Registered || (w.M.Registered && snap.GCAPubKey != w.M.GCA) {
 		return "state/gca-key", fmt.Sprintf("registered=%v key=%x, model %v %x", snap.GCAAvailable, snap.GCAPubKey[:4], w.M.Registered, w.M.GCA[:4])
 	}
@@ -500,4 +533,19 @@ func (w *opsWorld) checkServerList() (string, string) {
 		}
 	}
 	return "", ""
+}
+
+// locationOfLen returns a server location of the given length whose use as an
+// HTTP host fails fast without any name resolution.
+func locationOfLen(n string) string {
+	l, _ := strconv.Atoi(n)
+	switch {
+	case l == 0:
+		return ""
+	case l == 1:
+		return "1"
+	case l < 10:
+		return "127.0.0.1"[:9][:l]
+	}
+	return "127.0.0.1/" + strings.Repeat("a", l-10)
 }
